@@ -250,6 +250,37 @@ def parse_part(chk, only=None):
     return stats
 
 
+# ------------------------------------------------------------------ error order inside ONE declaration is not compared
+
+def canon_dump(recs, groups):
+    """canonical manifest dump records with the error records of each declaration sorted: `groups` = numbers of errors per
+    declaration in program order (model handler `loadgroups`); the order in which ONE statement reports its independent
+    errors is not part of the property, the order of errors of DIFFERENT declarations is.  Applied to both sides.
+    groups None or not covering the error records exactly: the records are returned unchanged (strict comparison)."""
+    head = [r for r in recs if not r.startswith("E ")]
+    errs = [r for r in recs if r.startswith("E ")]
+    if groups is None or sum(groups) != len(errs):
+        return list(recs)
+    out, i = [], 0
+    for g in groups:
+        out += sorted(errs[i:i + g])
+        i += g
+    return head + out
+
+
+def error_groups(model, wd, main):
+    a = model.ask("loadgroups %s %s" % (wd, main))
+    if a == "NONE" or a.startswith(("ERR", "EXC")):
+        return None
+    return [] if a == "." else [int(x) for x in a.split(",")]
+
+
+def same_up_to_error_order(model, wd, main, impl_recs, mod_recs):
+    """model = Interactive of the ninjaparse model; the files of the case are in wd"""
+    groups = error_groups(model, wd, main)
+    return groups is not None and canon_dump(impl_recs, groups) == canon_dump(mod_recs, groups)
+
+
 # ------------------------------------------------------------------ (d): bytes -> model parse -> model load vs ninja_driver load
 
 def load_inputs(chk):
@@ -289,7 +320,7 @@ def load_part(chk, only=None):
     cases = only if only is not None else load_inputs(chk)
     drv = vlib.Interactive(drv_path)
     model = vlib.Interactive(model_path)
-    stats = dict(trees=len(cases), identical=0, disagreements=0, commands=0, with_errors=0, crashes=0)
+    stats = dict(trees=len(cases), identical=0, identical_up_to_error_order_within_a_declaration=0, disagreements=0, commands=0, with_errors=0, crashes=0)
     try:
         for idx, (k, files, main) in enumerate(cases):
             wd = os.path.join(SANDBOX, "l%d" % idx)
@@ -319,6 +350,10 @@ def load_part(chk, only=None):
             chk.count(("load", min(ncmd, 6), errs) if (ncmd or errs) else None)
             if impl == mod:
                 stats["identical"] += 1
+                shutil.rmtree(wd, ignore_errors=True)
+            elif same_up_to_error_order(model, wd, main, irecs, mod.split(" ; ")):
+                stats["identical"] += 1
+                stats["identical_up_to_error_order_within_a_declaration"] += 1
                 shutil.rmtree(wd, ignore_errors=True)
             else:
                 stats["disagreements"] += 1
@@ -355,6 +390,7 @@ def run(chk):
     chk.assumptions = ["ManifestLoader reads an included file when it reaches the include; the model parses every file of the map up front (parsing depends on the bytes only)",
                        "the file map of the end-to-end part is keyed by make_absolute(wd, relative name): includes that spell an existing file differently are not generated",
                        "a tree in which a NUL byte and an include / subninja occur is excluded from the end-to-end part (the path reaches the OS truncated at the NUL)",
+                       "the errors ONE declaration reports are compared as a multiset (their order is not part of the property); errors of different declarations keep their order",
                        "Token line/column numbers are modelled but not compared (the recording driver prints texts only)"]
     return chk.finish(level="proof", rule=RULE,
                       trusted=["hand-written models coq/Parse/NinjaParse.v, NinjaLex.v, NinjaEval.v tied by differential execution", "harness/cpp/ninja_driver.cpp",
